@@ -122,9 +122,9 @@ class Write(Harness):
         self.symbolic = ["cells", "one metadata member name (code points unrestricted)"]; self.choice_dims = ["nrow", "dtype", "null geometry", "indent"]
     def build(self, ctx):
         n = choice("n", range(self.maxn + 1))
-        k = choice("dtype", ["i", "f"])
+        k = choice("dtype", ["i", "f", "none"])        # none: no property column at all (every feature has "properties": {})
         geom = Arr("object", [None if choice(f"g{i}", [False, True]) else dict(POINT) for i in range(n)])
-        data = Frame({"p": mk_col(k, n, "p"), "geometry": geom}, cls="GeoJSON")
+        data = Frame({"p": mk_col(k, n, "p"), "geometry": geom} if k != "none" else {"geometry": geom}, cls="GeoJSON")
         if k == "f":
             for c in data.cols["p"].cells: ctx.assume(z3.Not(z3.fpIsInf(c)))
         meta = []
@@ -141,7 +141,7 @@ class Write(Harness):
             cl.append(("a member name inserted verbatim between quotes is a valid JSON string literal for every name", ok))
         if out["parsed"] is None: return cl
         P = out["parsed"]
-        data = inp["data"]; n = len(data.cols["p"]); k = kind_of(data.cols["p"])
+        data = inp["data"]; n = len(data.cols["geometry"]); k = kind_of(data.cols["p"]) if "p" in data.cols else "none"
         cl.append(("top level is a FeatureCollection object with features", T(isinstance(P, dict) and P.get("type") == "FeatureCollection" and isinstance(P.get("features"), list))))
         if not (isinstance(P, dict) and isinstance(P.get("features"), list)): return cl
         cl.append(("same number of features", T(len(P["features"]) == n)))
@@ -150,6 +150,9 @@ class Write(Harness):
             cl.append((f"feature {i} is a Feature with properties and geometry", T(ok)))
             if not ok: continue
             cl.append((f"feature {i}: geometry unchanged", json_same(f["geometry"], data.cols["geometry"].cells[i])))
+            if k == "none":
+                cl.append((f"feature {i}: no properties", T(f["properties"] == {})))
+                continue
             cell = data.cols["p"].cells[i]
             got = f["properties"].get("p")
             if k == "f":
